@@ -32,10 +32,10 @@ CAL = "black_it.calibrator:Calibrator"
 
 
 def run(ctx: Context) -> None:
-    r1_round_robin(ctx)
-    r1_calibrate_pairing(ctx)
-    r2_rl_bootstrap(ctx)
-    r3_truth_table(ctx)
+    ctx.rule(r1_round_robin)
+    ctx.rule(r1_calibrate_pairing)
+    ctx.rule(r2_rl_bootstrap)
+    ctx.rule(r3_truth_table)
 
 
 # ---------------------------------------------------------------------------------------------- R1
